@@ -233,13 +233,33 @@ func initBeforePublish(p *load.Program, r *core.Report, rule, rid string, floor 
 			inst := "the object entered into table '" + table + "' is not written to after it became reachable"
 			var late ssa.Instruction
 			lateField := ""
+			// the object and every merge it flows into ("the new entry or the one found")
+			alias := map[ssa.Value]bool{obj: true}
+			for changed := true; changed; {
+				changed = false
+				eachInstr(f, func(x ssa.Instruction) {
+					if ph, ok := x.(*ssa.Phi); ok && !alias[ph] {
+						for _, e := range ph.Edges {
+							if alias[e] {
+								alias[ph] = true
+								changed = true
+							}
+						}
+					}
+				})
+			}
 			eachInstr(f, func(x ssa.Instruction) {
-				st, ok := x.(*ssa.Store)
-				if !ok {
-					return
+				var fa *ssa.FieldAddr
+				switch y := x.(type) {
+				case *ssa.Store:
+					fa, _ = y.Addr.(*ssa.FieldAddr)
+				case *ssa.MapUpdate:
+					// an entry put into a map the object holds
+					if ld, ok := y.Map.(*ssa.UnOp); ok {
+						fa, _ = ld.X.(*ssa.FieldAddr)
+					}
 				}
-				fa, ok := st.Addr.(*ssa.FieldAddr)
-				if !ok || fa.X != ssa.Value(obj) {
+				if fa == nil || !alias[fa.X] {
 					return
 				}
 				if instrReachable(in, x) {
